@@ -10,8 +10,9 @@ quick / thorough:
      through the real _run_rtcp under a virtual clock); model counters vs StreamStatistics
      and model report vs the bytes sent are compared step by step (agreement measure).
   3. code -> spec: seeded random histories at real sizes (16-bit sequence numbers starting
-     next to the wrap, several cycles, 32-bit timestamps next to the wrap, loss / duplicates
-     / reordering, arrival clock jumps, 1-3 SSRCs) are executed on the real receiver; every
+     next to the wrap, several cycles, 32-bit timestamps next to the wrap, relative transit
+     (arrival clock - timestamp) next to 0 mod 2^32, loss / duplicates / reordering, arrival
+     clock jumps, 1-3 SSRCs) are executed on the real receiver; every
      report the code sends is parsed back from the wire and judged by TraceRrStats.tla.
   4. binding self-test: corrupted copies of recorded traces must be rejected.
 """
@@ -87,7 +88,7 @@ WITNESSES = ["WitnessOneCycle", "WitnessNoTsWrap", "WitnessNoReorder", "WitnessN
              "WitnessNoLoss", "WitnessNoJitter", "WitnessReadings", "WitnessOneReport"]
 # deviation -> (configuration, invariant that must fail)
 DEVIATIONS = {"NoCycles": ("seq", "ModelHighest"), "NonModularTs": ("jit", "ModelJitter"),
-              "NoClamp": ("seq", "ModelLost")}
+              "NoClamp": ("seq", "ModelLost"), "TransitNotModular": ("jit", "ModelJitter")}
 
 SIM = dict(seqmod=65536, tsmod=1 << 30, lostmin="-8388608", lostmax=8388607, highestmax=2147483647,
            jittermax=2147483647, checkd="FALSE", view="", dev="{}",
@@ -348,7 +349,7 @@ def gen_history(r, klass):
     """Seeded random arrival history at real sizes (ideal terms, see execute)."""
     clock = r.choice([8000, 48000, 90000])
     step = STEP[clock]
-    k = 1 if klass == "longloss" else r.choice([1, 1, 2, 3])
+    k = 1 if klass in ("longloss", "transit0") else r.choice([1, 1, 2, 3])
     a0 = int(r.choice([1.7e9, 1.7e9, 0.0, 86400 * 365.25 * 30]) * clock) + (1 << 26) + r.randint(0, 10 ** 6)
     streams, sts = [], []
     for i in range(k):
@@ -360,8 +361,15 @@ def gen_history(r, klass):
         ssrc = r.choice([0xFFFFFFFF - i, 1 + i, 0x80000000 + i, r.randrange(1 << 32)])
         while ssrc in [s["ssrc"] for s in streams]:
             ssrc = r.randrange(1 << 32)
+        if klass == "transit0":
+            # relative transit (arrival clock in RTP units - RTP timestamp) mod 2^32 next to 0 / 2^32:
+            # the arrival clock origin is moved so that it is within a few hundred units of the
+            # timestamp origin modulo 2^32, on either side
+            delta = r.choice([-1, 1]) * r.randint(0, 2 * step)
+            a0 += (tso + delta - a0) % (1 << 32)
         streams.append({"ssrc": ssrc, "seq0": seq0, "tso": str(tso)})
         sts.append({"hi": None, "t_hi": 0, "tmap": {}, "recent": []})
+    dev = r.choice([40, step // 2, step, 2 * step])      # transit0: arrival deviation from the schedule
     ops = []
     a = 0
     n = r.randint(300, 520) if klass == "longloss" else r.randint(5, 120)
@@ -439,6 +447,10 @@ def gen_history(r, klass):
             t = st["t_hi"] - step * min(hi - x, 40) + r.choice([0, 0, step])
         if abs(t) >= SPAN - 1:
             break
+        if klass == "transit0":
+            # ordinary network jitter around the nominal schedule: the transit crosses the
+            # 0 / 2^32 boundary back and forth
+            a = t + r.randint(-dev, dev) if (hi is None or x > hi) else a - da + r.randint(0, step)
         st["tmap"][x] = t
         st["recent"] = (st["recent"] + [x])[-10:]
         if hi is None or x > hi:
@@ -495,6 +507,16 @@ def fixed_histories():
     ops += [["report"], ["add", 1, 10, 9600, 9600 + int(1.7e9 * 48000)], ["report"]]
     hs.append(("fixed-clockstep", {"clock": 48000, "a0": "4800000",
                                    "streams": [{"ssrc": 5, "seq0": 0, "tso": "0"}], "ops": ops}))
+    # relative transit (arrival - timestamp) mod 2^32 straddling 0: arrival clock origin 20 units
+    # below the timestamp origin, arrivals deviating by up to 40 units from the 20 ms schedule
+    devs = [0, -40, 16, -32, 40, -8, 24, -40, 0, 32, -24, 8, -40, 40, -16, 0]
+    ops = [["add", 1, i, i * 160, i * 160 + devs[i % 16]] for i in range(40)]
+    ops.insert(20, ["report"])
+    ops.append(["report"])
+    tso = (1 << 32) - 25 * 160
+    a0 = 3167 * (1 << 32) + tso - 20
+    hs.append(("fixed-transit0", {"clock": 8000, "a0": str(a0),
+                                  "streams": [{"ssrc": 99, "seq0": 65520, "tso": str(tso)}], "ops": ops}))
     return hs
 
 
@@ -706,7 +728,7 @@ def run():
                 tr["src"] = name
                 items.append((tr, h))
             nrand = 2000 if thorough else 450
-            classes = ["plain", "plain", "wrapts", "wrapts", "bigjump", "plain"]
+            classes = ["plain", "transit0", "wrapts", "wrapts", "bigjump", "plain", "transit0"]
             for i in range(nrand):
                 klass = "longloss" if i % 40 == 7 else classes[i % len(classes)]
                 h = gen_history(r, klass)
